@@ -13,6 +13,7 @@ Only property theorems and non-vacuity examples live here.
 import Ampverif.Gen.C12
 import Ampverif.Lemmas.C12Hankel
 import Ampverif.Model.C12Builder
+import Ampverif.Lemmas.C11Branch
 import Mathlib.Tactic.Ring
 import Mathlib.Tactic.FieldSimp
 import Mathlib.Tactic.IntervalCases
@@ -20,7 +21,7 @@ import Mathlib.Tactic.LinearCombination
 import Mathlib.Tactic.Positivity
 
 namespace Ampverif.Props.C12
-open Ampverif.Gen.C12 Ampverif.Lemmas.C12 Ampverif.C12Builder
+open Ampverif.Gen.C12 Ampverif.Lemmas.C12 Ampverif.C12Builder Ampverif.Lemmas.C11
 
 /-! ### Energy-dependent width -/
 
@@ -246,7 +247,9 @@ theorem bw_bounded (L : ℕ) (hL : L < bwTable.length) (z : ℝ) (hz : 0 ≤ z) 
   rw [bw_eq_table L hL]
   exact ⟨BWEntry.eval_nonneg hwf hz, BWEntry.eval_le hwf hz⟩
 
-/-! ### Polynomial path = Hankel definition `|h_L(1)|² / (|h_L(√z)|² z)`, per L (one template) -/
+/-! ### Polynomial path = Hankel definition `|h_L(1)|² / (|h_L(√z)|² z)` for `z > 0`, per L (one template)
+
+The hypothesis `0 < z` is necessary: see `bw_paths_differ_below_zero` (known finding). -/
 
 theorem bw_hankel_0 (z : ℝ) (hz : 0 < z) : BlattWeisskopfHankel_0 z = BlattWeisskopfSquared_0 z := by
   have hwf : bwEntry_0.WF := bwTable_WF 0 (by decide)
@@ -329,6 +332,33 @@ theorem bw_hankel_all (z : ℝ) (hz : 0 < z) :
     BlattWeisskopfSquared z 9 = BlattWeisskopfHankel_9 z ∧
     BlattWeisskopfSquared z 10 = BlattWeisskopfHankel_10 z :=
   ⟨(bw_hankel_0 z hz).symm, (bw_hankel_1 z hz).symm, (bw_hankel_2 z hz).symm, (bw_hankel_3 z hz).symm, (bw_hankel_4 z hz).symm, (bw_hankel_5 z hz).symm, (bw_hankel_6 z hz).symm, (bw_hankel_7 z hz).symm, (bw_hankel_8 z hz).symm, (bw_hankel_9 z hz).symm, (bw_hankel_10 z hz).symm⟩
+
+/-! ### Known finding: below `z = 0` the two paths are different functions (L = 0) -/
+
+/-- `bw_hankel_L` needs `z > 0`: for EVERY `z < 0` the defining Hankel expression with the principal
+`sqrt z` (what a symbolic `L` gives after `L := 0`) is NEGATIVE, while the cached polynomial path is `1`.
+(`known_findings.json`: "symbolic-L Hankel path vs integer-L polynomial path, z <= 0".) -/
+theorem bw_paths_differ_below_zero (z : ℝ) (hz : z < 0) :
+    BlattWeisskopfHankelC_0 z < 0 ∧ BlattWeisskopfSquared_0 z = 1 := by
+  refine ⟨?_, by unfold BlattWeisskopfSquared_0; rfl⟩
+  have hroot : (((z : ℝ) : ℂ) ^ ((1 : ℂ) / 2)) ≠ 0 := by
+    rw [csqrt_ofReal_of_neg hz]
+    have : Real.sqrt (-z) ≠ 0 := (Real.sqrt_pos.mpr (by linarith)).ne'
+    simp [Complex.I_ne_zero, this]
+  have hne : ∀ w : ℂ, w ≠ 0 → 0 < ‖SphericalHankel1C_0 w‖ ^ 2 := by
+    intro w hw
+    have : SphericalHankel1C_0 w ≠ 0 := by
+      unfold SphericalHankel1C_0
+      simp [Complex.I_ne_zero, hw, Complex.exp_ne_zero]
+    positivity
+  unfold BlattWeisskopfHankelC_0
+  have h1 := hne (((1 : ℝ) : ℝ) : ℂ) (by simp)
+  have h2 := hne _ hroot
+  exact mul_neg_of_neg_of_pos (mul_neg_of_neg_of_pos (inv_lt_zero.mpr hz) h1) (inv_pos.mpr h2)
+
+example : BlattWeisskopfHankelC_0 (-1) ≠ BlattWeisskopfSquared_0 (-1) := by
+  obtain ⟨h1, h2⟩ := bw_paths_differ_below_zero (-1) (by norm_num)
+  rw [h2]; linarith
 
 /-! ### Non-vacuity -/
 
